@@ -21,12 +21,14 @@ import (
 
 	"github.com/tsawler/tabula"
 	"github.com/tsawler/tabula/contentstream"
+	"github.com/tsawler/tabula/reader"
 	"github.com/tsawler/tabula/text"
 	"pgregory.net/rapid"
 
 	"verif/harness/gen/frag"
 	"verif/harness/gen/fragpdf"
 	"verif/harness/gen/pdfw"
+	"verif/harness/gen/rawpdf"
 	"verif/harness/iso"
 	"verif/harness/vr"
 )
@@ -34,7 +36,57 @@ import (
 // ---------------------------------------------------------------------------
 // documents, addressed by a small integer so that a case is replayable
 
-const nDocs = 36
+const nDocs = 40
+
+// Documents numbered dynBase and above are made on demand, each with private operators of its own (inside a
+// BX/EX compatibility section, ISO 32000-1 7.8.2, Table 32): the first parse of each is the first time the process
+// meets those operator names. Their text is known analytically, so they need no baseline process.
+const dynBase = 1000
+const dynDocs = 4000
+
+func formClash(variant int) []byte {
+	win := "<< /Type /Font /Subtype /Type1 /BaseFont /Helvetica /Encoding /WinAnsiEncoding >>"
+	mac := "<< /Type /Font /Subtype /Type1 /BaseFont /Helvetica /Encoding /MacRomanEncoding >>"
+	form := "BT /F1 12 Tf 72 600 Td (form caf\\216 \\351) Tj ET"
+	p1 := "BT /F1 12 Tf 72 700 Td (one caf\\351 \\216) Tj ET"
+	p2 := "BT /F1 12 Tf 72 700 Td (two \\351t\\351 \\216) Tj ET"
+	switch variant {
+	case 0: // page 1 paints the form, then shows more text with its own /F1
+		p1 += " /X0 Do BT /F1 12 Tf 72 500 Td (after \\351 \\216) Tj ET"
+	case 1: // only page 2 paints the form
+		p2 = "/X0 Do " + p2
+	case 2: // both pages, form first
+		p1 = "/X0 Do " + p1
+		p2 = "/X0 Do " + p2 + " /X0 Do"
+	case 3: // the form's own resources also rename the page's second font
+		p1 += " /X0 Do BT /F2 12 Tf 72 500 Td (after \\351 \\216) Tj ET"
+	}
+	o := map[int]string{
+		1: "<< /Type /Catalog /Pages 2 0 R >>",
+		2: "<< /Type /Pages /Kids [3 0 R 4 0 R] /Count 2 /MediaBox [0 0 612 792] /Resources << /Font << /F1 5 0 R /F2 5 0 R >> /XObject << /X0 7 0 R >> >> >>",
+		3: "<< /Type /Page /Parent 2 0 R /Contents 8 0 R >>",
+		4: "<< /Type /Page /Parent 2 0 R /Contents 9 0 R >>",
+		5: win,
+		6: mac,
+		7: rawpdf.Stream("/Type /XObject /Subtype /Form /BBox [0 0 612 792] /Resources << /Font << /F1 6 0 R /F2 6 0 R >> >>", form),
+		8: rawpdf.Stream("", p1),
+		9: rawpdf.Stream("", p2),
+	}
+	return rawpdf.Build(o, 1)
+}
+
+func dynText(i int) string { return fmt.Sprintf("private %d", i) }
+
+func dynDoc(i int) []byte {
+	content := fmt.Sprintf("BX 1 2 zq%da /N%d zq%db EX BT /F1 12 Tf 72 700 Td (%s) Tj ET BX zr%dc EX", i, i, i, dynText(i), i)
+	return rawpdf.Build(map[int]string{
+		1: "<< /Type /Catalog /Pages 2 0 R >>",
+		2: "<< /Type /Pages /Kids [3 0 R] /Count 1 >>",
+		3: "<< /Type /Page /Parent 2 0 R /MediaBox [0 0 612 792] /Resources << /Font << /F1 4 0 R >> >> /Contents 5 0 R >>",
+		4: "<< /Type /Font /Subtype /Type1 /BaseFont /Helvetica >>",
+		5: rawpdf.Stream("", content),
+	}, 1)
+}
 
 type docSpec struct {
 	kind string // pdf | html | file
@@ -70,6 +122,11 @@ func getDoc(i int) *docSpec {
 	}
 	var d *docSpec
 	switch {
+	case i >= dynBase:
+		d = &docSpec{kind: "pdf", ext: ".pdf", data: dynDoc(i)}
+	case i >= 36:
+		// a Form XObject whose resources name another font /F1 than the page's inherited, shared resources do
+		d = &docSpec{kind: "pdf", ext: ".pdf", data: formClash(i - 36)}
 	case i >= 32:
 		// twins: identical structure and object numbering, same /BaseFont, different /Encoding (32,33) resp.
 		// different /ToUnicode (34,35), text on codes the encodings disagree on - anything cached across
@@ -145,7 +202,7 @@ func docPath(i int) string {
 	return p
 }
 
-var ops = []string{"text", "markdown", "jsonl", "csv", "document", "contentstream"}
+var ops = []string{"text", "markdown", "jsonl", "csv", "document", "contentstream", "sharedreader"}
 
 // runOp performs one extraction and returns a canonical byte string of its result.
 func runOp(doc int, op string) string {
@@ -191,6 +248,28 @@ func runOp(doc int, op string) string {
 			}
 		}
 		return b.String()
+	case "sharedreader":
+		// several extractions through one reader.Reader: the later ones must not see what the earlier ones did
+		if d.kind != "pdf" {
+			return "n/a"
+		}
+		r, err := reader.Open(docPath(doc))
+		if err != nil {
+			return fmt.Sprintf("err=%v", err)
+		}
+		defer r.Close()
+		first, _, e1 := tabula.FromReader(r).Text()
+		n, _ := r.PageCount()
+		var b strings.Builder
+		fmt.Fprintf(&b, "err=%v\n%s\n", e1, first)
+		for p := n; p >= 1; p-- {
+			shared, _, es := tabula.FromReader(r).Pages(p).Text()
+			alone, _, ea := tabula.Open(docPath(doc)).Pages(p).Text()
+			fmt.Fprintf(&b, "page %d through the shared reader equals the page read alone: equal=%v\n", p, shared == alone && (es == nil) == (ea == nil))
+		}
+		again, _, e2 := tabula.FromReader(r).Text()
+		fmt.Fprintf(&b, "second Text() through the shared reader: equal=%v\n", again == first && (e1 == nil) == (e2 == nil))
+		return b.String()
 	case "contentstream":
 		// the anchor of the property: parse a content stream directly
 		prog := []byte(fmt.Sprintf("q 1 0 0 1 %d 10 cm BT /F1 12 Tf 72 700 Td (doc %d) Tj [(a) -120 (b)] TJ ET Q", doc, doc))
@@ -230,6 +309,9 @@ var (
 
 // baselineOf returns the result of (doc, op) computed alone in a process that did nothing else.
 func baselineOf(doc int, op string) (string, error) {
+	if doc >= dynBase { // only "text" is ever asked of these
+		return fmt.Sprintf("err=%v\n%s", nil, dynText(doc)), nil
+	}
 	key := fmt.Sprintf("%d/%s", doc, op)
 	baseMu.Lock()
 	defer baseMu.Unlock()
@@ -320,6 +402,9 @@ func compare(where string, doc int, op, got string) error {
 	want, err := baselineOf(doc, op)
 	if err != nil {
 		return err
+	}
+	if op == "sharedreader" && strings.Contains(got, "equal=false") {
+		return fmt.Errorf("%s: extractions of document %d through one shared reader.Reader interfere with each other:\n%s", where, doc, got)
 	}
 	if got != want {
 		i := 0
@@ -415,7 +500,17 @@ func genCase(t *rapid.T) Case {
 			for j := 0; j < k; j++ {
 				ds = append(ds, (first+j*stride)%nDocs)
 			}
-			c.Steps = append(c.Steps, Step{Kind: "burst", Docs: ds, G: rapid.IntRange(2, 16).Draw(t, "g"), Op: rapid.SampledFrom(ops).Draw(t, "op")})
+			op := rapid.SampledFrom(ops).Draw(t, "op")
+			if rapid.IntRange(0, 2).Draw(t, "freshOperators") == 0 {
+				// documents the process has (most likely) never parsed: their private operators are new to it
+				op = "text"
+				for j := range ds {
+					if j%2 == 0 {
+						ds[j] = dynBase + rapid.IntRange(0, dynDocs-1).Draw(t, "dynDoc")
+					}
+				}
+			}
+			c.Steps = append(c.Steps, Step{Kind: "burst", Docs: ds, G: rapid.IntRange(2, 16).Draw(t, "g"), Op: op})
 		case "repeat":
 			c.Steps = append(c.Steps, Step{Kind: "repeat", Doc: rapid.IntRange(0, nDocs-1).Draw(t, "doc"), Op: rapid.SampledFrom(ops).Draw(t, "op"), N: rapid.IntRange(2, 30).Draw(t, "n")})
 		}
@@ -446,6 +541,11 @@ func meta(c Case) vr.Meta {
 			if st.G >= 2 && len(distinct) >= 2 {
 				nt = true
 				labels = append(labels, "burst")
+			}
+			for _, d := range st.Docs {
+				if d >= dynBase {
+					labels = append(labels, "burst:documents-with-new-operators")
+				}
 			}
 		}
 	}
